@@ -120,8 +120,8 @@ def check(label, prop, seconds):
     res = {"label": label, "prop": prop, "seconds": seconds, "at": time.strftime("%Y-%m-%d %H:%M"), "verif": subprocess.run(["git", "-C", "/verif", "rev-parse", "--short", "HEAD"], stdout=subprocess.PIPE).stdout.decode().strip()}
     try:
         d = clone(label, True)
-        env = dict(ENV, VERIF_REPO=d, VERIF_EVIDENCE_DIR="/dev/shm/sc-ev")
-        p = subprocess.run(["/verif/bin/check", prop, "--seconds", str(seconds)], env=env, stdout=subprocess.PIPE, stderr=subprocess.STDOUT, timeout=3600)
+        env = dict(ENV, VERIF_REPO=d, VERIF_EVIDENCE_DIR="/dev/shm/sc-ev/" + label, VERIF_MINBUDGET="12")
+        p = subprocess.run(["/verif/bin/check", prop, "--seconds", str(seconds), "--workers", os.environ.get("WORKERS", "16")], env=env, stdout=subprocess.PIPE, stderr=subprocess.STDOUT, timeout=3600)
         out = p.stdout.decode("utf-8", "replace")
         res["rc"] = p.returncode
         res["signatures"] = re.findall(r"signature=(.*?) seed=", out)[:6]
@@ -209,11 +209,16 @@ def main():
                 open(OUT + "/_wave4_confirm.jsonl", "a").write(json.dumps(r) + "\n")
                 print(r["label"], "confirmed" if r.get("confirmed") else "NOT CONFIRMED %s" % {k: v for k, v in r.items() if k != "label" and "tail" not in k}, flush=True)
     elif what == "check":
-        for lab in labels(args):
-            prop = prop_override or srcdir(lab)[1]
-            r = check(lab, prop, seconds)
-            open(OUT + "/_wave4_checks.jsonl", "a").write(json.dumps(r) + "\n")
-            print(lab, prop, "rc=%s" % r["rc"], r.get("signatures", [])[:2], r.get("error", ""), flush=True)
+        from concurrent.futures import ThreadPoolExecutor
+        done = set()
+        if "--new" in sys.argv:
+            done = {(r["label"], r["prop"]) for r in load(OUT + "/_wave4_checks.jsonl")}
+        todo = [(lab, prop_override or srcdir(lab)[1]) for lab in labels(args)]
+        todo = [t for t in todo if t not in done]
+        with ThreadPoolExecutor(max_workers=int(os.environ.get("JOBS", "1"))) as ex:
+            for r in ex.map(lambda t: check(t[0], t[1], seconds), todo):
+                open(OUT + "/_wave4_checks.jsonl", "a").write(json.dumps(r) + "\n")
+                print(r["label"], r["prop"], "rc=%s" % r["rc"], r.get("signatures", [])[:2], r.get("error", ""), flush=True)
     elif what == "file":
         file_results()
 
